@@ -24,7 +24,7 @@ RULE = ("seeded histories over pools of user arrays (own memory / F / strided vi
         "release; distinct = hash of the (lock|unlock) event-role sequence = interleavings seen.")
 ASSUMPTIONS = ["between 'upstream partly cleared' and 'operation dead' the flag is unspecified and not judged",
                "internal table residue (_array_tracker) is not judged, only flags"]
-TIERS = {"quick": {"cases": 2500, "nst": (4, 14), "gcinject": 0.0}, "thorough": {"cases": 16000, "nst": (6, 30), "gcinject": 0.04}}
+TIERS = {"quick": {"cases": 2500, "nst": (4, 14), "gcinject": 0.03}, "thorough": {"cases": 16000, "nst": (6, 30), "gcinject": 0.04}}
 FLOORS = {"quick": {"I1_evals": 20000, "I2_evals": 40000, "quiescent_arrays": 8000},
           "thorough": {"I1_evals": 100000, "I2_evals": 200000, "quiescent_arrays": 40000}}
 
@@ -141,7 +141,8 @@ def gen_case(rng, cfg, idx):
         st.append(["del", x])
         if rng.random() < 0.2:
             st.append(["gc"])
-    return {"st": st, "gcinject": cfg.get("gcinject", 0.0) if rng.random() < 0.5 else 0.0, "gseed": rng.randrange(1 << 30)}
+    return {"st": st, "gcinject": cfg.get("gcinject", 0.0) if rng.random() < (0.5 if cfg.get("tier") == "thorough" else 0.1) else 0.0,
+            "gseed": rng.randrange(1 << 30)}
 
 
 class Monitor:
